@@ -12,7 +12,8 @@ EXPLANATION = ("Every queued Put/PutWithTTL of the put APIs is dominated by the 
                "predicate for the same key; the true edge answers rejected(KeyAlreadyExists) on the spot without "
                "effects; and the presence predicate must agree with what reads see, i.e. apply the liveness "
                "predicate to the entry it finds (R07.3) - otherwise a key that reads as absent (expired but not yet "
-               "swept, or soft-deleted) is refused as 'already exists'.")
+               "swept, or soft-deleted) is refused as 'already exists'. Every Ok answer of a put API, synthesised "
+               "acknowledgements included, lies on a path that evaluated the presence predicate (R07.10).")
 ASSUMPTIONS = ["the worker-side re-check (C05 R05.3) uses the same presence predicate"]
 
 EXEMPT_LOOKUPS = {
@@ -91,6 +92,18 @@ def run(ctx):
                 bad6.append("refused with %s on a path that never tested whether the key is present (%s)" % (sorted(others), p.show()))
         ctx.check(not bad6, "R07.6", "%s|other-refusals-only-for-absent-keys" % name,
                   "a put answers with a reason other than KeyAlreadyExists only after the presence predicate reported its key absent", f.where(), "; ".join(bad6[:2]))
+        # R07.10 every verdict of a put API is given after the presence test: an Ok answer (synthesised Accepted included)
+        # on a path that never asked whether the key is present tells the caller of a readable key something other than
+        # 'key already exists' (shutdown / channel errors are Err and exempt; forwarding to another API is judged there)
+        other_apis = {n for n in F.fns if n != name and F.fns[n].rec.get("reachable") and api_ret(F.fns[n]) and F.fns[n].kind != "Closure"}
+        bad10 = []
+        for p in paths:
+            if p.ret_variant() != ("Ok",) or p.calls(other_apis):
+                continue
+            if not any(a[0] == "bool" and a[1][0] == "call" and a[1][1] in preds for a in p.atoms):
+                bad10.append("answers Ok(%s) on a path that never tested whether the key is present (%s)" % (fmt(p.ret)[:60], p.show()))
+        ctx.check(not bad10, "R07.10", "%s|every-verdict-after-presence-test" % name,
+                  "every Ok answer of a put API (queued or synthesised, accepted or rejected) is given on a path that tested the presence predicate", f.where(), "; ".join(bad10[:2]))
         ctx.check(not bad2 and n_present >= 1, "R07.2", "%s|present-rejects-without-effect" % name,
                   "when the key is present the put is answered Ok(rejected(KeyAlreadyExists)) immediately, nothing is queued or changed", f.where(), "; ".join(bad2[:2]))
     ctx.floor("R07.1", "put APIs queueing Put/PutWithTTL behind a presence test", n_api, 3)
